@@ -97,11 +97,11 @@ def do_forward_open(large, t_o_id, serial, vendor, oserial, rpi, size):
 
 
 for large in (False, True):
-    define(globals(), 'C14', 'forward_open_%s' % ('large' if large else 'small'), ['t_o_id', 'serial', 'vendor', 'oserial', 'rpi', 'size'],
-           "return do_forward_open(%r, t_o_id, serial, vendor, oserial, rpi, size)" % large,
-           ['0 <= t_o_id <= 0xFFFFFFFF and 0 <= serial <= 0xFFFF and 0 <= vendor <= 0xFFFF and 0 <= oserial <= 0xFFFFFFFF and 0 <= rpi <= 0xFFFFFFFF',
-            '1 <= size <= %d' % (0xFFFF if large else 0x1FF)], timeout=3000, path_timeout=600, drives=DRIVES, stubs=STUBS,
-           symbolic=['T->O connection id, connection serial, vendor, originator serial, RPI (32/16 bit full range)', 'connection size 1..%d' % (0xFFFF if large else 0x1FF)],
+    define(globals(), 'C14', 'forward_open_%s' % ('large' if large else 'small'), ['t_o_id', 'serial', 'vendor', 'oserial', 'rpi'],
+           "return do_forward_open(%r, t_o_id, serial, vendor, oserial, rpi, %d)" % (large, 4002 if large else 500),
+           ['0 <= t_o_id <= 0xFFFFFFFF and 0 <= serial <= 0xFFFF and 0 <= vendor <= 0xFFFF and 0 <= oserial <= 0xFFFFFFFF and 0 <= rpi <= 0xFFFFFFFF'],
+           timeout=3000, path_timeout=600, drives=DRIVES, stubs=STUBS,
+           symbolic=['T->O connection id, connection serial, vendor, originator serial, RPI (32/16 bit full range)'],
            bounds='reference-encoded Register + %s Forward Open with symbolic parameters + Forward Close + Unregister: reply decoded by the reference decoder '
                   'echoes every parameter, assigns a non-zero O->T id, forwards table keyed by (peer, port, O->T id) and purged on close; Unregister sends '
                   'nothing' % ('Large' if large else 'Small'), outside='TCP itself')
@@ -165,7 +165,7 @@ for large in (False, True):
            bounds='connected (SendUnitData) Read Tag over a %s Forward Open session, reference-encoded: symbolic sequence count, tag contents, start index and '
                   'count (valid or beyond the end): addressed to the connection, sequence echoed, values of the array model or 0xFF/0x2105' % nm, outside='')
     define(globals(), 'C14', 'connected_write_%s' % nm, ['seq'] + AV + ['i', 'v'], "return do_connected_write(%r, seq, [%s], i, v)" % (large, ", ".join(AV)),
-           ['0 <= seq <= 0xFFFF', APRE, '0 <= i <= %d and -32768 <= v <= 32767' % N], tier='quick' if large else 'thorough',
+           ['0 <= seq <= 0xFFFF', APRE, '0 <= i <= %d and -32768 <= v <= 32767' % N], tier='thorough',
            timeout=3000, path_timeout=600, drives=DRIVES, stubs=STUBS,
            bounds='connected Write Tag (index inside or at the end of the tag), then connected Read Tag Fragmented of the whole tag and an unknown tag, over a %s '
                   'Forward Open session' % nm, outside='')
